@@ -37,7 +37,8 @@ def cases(draw):
             kind = draw(st.sampled_from(['eof', 'error', 'ka_timeout', 'explicit', 'explicit']))
         pending = draw(st.lists(st.sampled_from(['rr', 'rr', 'st', 'ch', 'fnf']), max_size=4))
         endings.append({'kind': kind, 'pending': pending, 'ticks_before': draw(st.integers(0, 4)),
-                        'during': draw(st.sampled_from([None, None, 'rr'])),
+                        'during': draw(st.sampled_from([None, None, 'rr', 'rr2', 'rr3'])),
+                        'provider_delay': draw(st.sampled_from([0, 0, 2, 5])),
                         'ticks_after': draw(st.integers(1, 5))})
     P = draw(st.sampled_from([100, 250, 500]))
     L = draw(st.sampled_from([1000, 1500, 3000]))
@@ -61,7 +62,8 @@ def pending_spec(k):
 def build(case):
     P, L = case['P_ms'], case['L_ms']
     cfg = {'msg': case['msg'], 'frag': [case['frag'], case['frag']], 'rbuf': [64, 64], 'ka': P / 1000.0, 'life': L / 1000.0,
-           'transports': len(case['endings']) + 1}
+           'transports': len(case['endings']) + 1,
+           'provider_delay': [0] + [e.get('provider_delay', 0) for e in case['endings']]}
     if case['mode'] == 'on_close':
         cfg['on_close_reconnect'] = True
     if case['mode'] == 'on_ka_timeout':
@@ -100,10 +102,12 @@ def build(case):
                 ops.append(['tick', e['ticks_after']])
             ops.append(['reconnect'])
         if e['during']:
-            # a request issued while the reconnect is in progress
-            inter.append({'k': 'rr', 'side': 'c', 'req': [2, 2], 'resp': {'mode': 'now', 'p': [4, 4]}})
-            cur['during'].append(len(inter) - 1)
-            ops.append(['start'])
+            # requests issued while the reconnect is in progress (the provider may take a while to deliver a transport)
+            ops.append(['tick', 1])
+            for _ in range({'rr': 1, 'rr2': 2, 'rr3': 3}[e['during']]):
+                inter.append({'k': 'rr', 'side': 'c', 'req': [2, 2], 'resp': {'mode': 'now', 'p': [4, 4]}})
+                cur['during'].append(len(inter) - 1)
+                ops.append(['start'])
         ops += [['tick', 6], ['settle'], ['mark', 'reconnected']]
         plan.append(cur)
         cur = {'pending': [], 'probes': [], 'during': []}
@@ -153,6 +157,9 @@ def judge(case):
         if nsetup != 1:
             out.append(viol('setup_count_after_reconnect', 'C17:setup_count:%d' % nsetup, **facts))
         reqs = [x for x in frames if x['f']['type'] in monitors.REQ_TYPES]
+        ids = [x['f']['sid'] for x in reqs]
+        if ids != sorted(ids):
+            out.append(viol('requests_reordered_after_reconnect', 'C17:request_order', ids=ids[:10], **facts))
         if reqs and reqs[0]['f']['sid'] != 1:
             out.append(viol('stream_ids_not_restarted', 'C17:first_stream_id', sid=reqs[0]['f']['sid'], **facts))
         kas = [x for x in frames if x['f']['type'] == 'KEEPALIVE' and x['f'].get('respond')]
